@@ -2,6 +2,7 @@ package main
 
 import (
 	"bufio"
+	"bytes"
 	"encoding/json"
 	"flag"
 	"fmt"
@@ -346,6 +347,15 @@ func sweepCases(r *rand.Rand) []vcase {
 	for _, f := range wrapFrags { // reference verdicts for v-seams' large wrappers
 		add("[" + f + "]")
 		add("[0," + f + ",7]")
+	}
+	// raw control characters (and their innocent neighbours 0x20, 0x7f) inside a string at EVERY offset of two 64-byte blocks:
+	// rejected (resp. accepted) wherever they stand
+	for off := 2; off < 130; off++ {
+		for _, cb := range []byte{0x00, 0x01, 0x08, 0x09, 0x0a, 0x0d, 0x1e, 0x1f, 0x20, 0x7f} {
+			body := append(bytes.Repeat([]byte{'s'}, off-2), cb)
+			add("[\"" + string(body) + "\"]")
+			add("{\"" + string(body) + "tail\":1}")
+		}
 	}
 	for b := 0; b < 256; b++ {
 		c := string([]byte{byte(b)})
